@@ -1,7 +1,186 @@
-//! C03 — not built yet.
-use vcore::Ctx;
+//! C03 — a field error nulls only the nearest nullable position and is reported once (fault enumeration).
+use crate::execcmp::*;
+use std::collections::BTreeSet;
+use vcore::{Case, Ctx, Src};
+use vgql::ast::OpKind;
+use vgql::gensch::*;
+use vgql::gentyped::*;
+use vgql::print::print_plain;
+use vgql::refexec::{execute, show_path, Quirks, RefOut};
+use vgql::sch::{Kind, Sch};
+use vgql::world::*;
+use vschemas::dynbuild::build_dynamic;
+use vschemas::rt::Rt;
+use vschemas::z::{build_z, z_sch, ZSchema};
 
-pub fn run(_ctx: &mut Ctx) {
-    eprintln!("C03: check not built yet");
-    std::process::exit(2);
+enum Flavour<'a> {
+    Static(&'a ZSchema),
+    Dynamic,
+}
+
+fn applicable(sch: &Sch, dynamic: bool, ty: &vgql::ast::Ty, kind: Fault) -> bool {
+    match kind {
+        Fault::ResolverError => true,
+        Fault::Guard => false,
+        Fault::InvalidValue => {
+            // only where the dynamic API checks values: enums and custom scalars (validators), not inside lists of lists
+            dynamic && matches!(sch.kind(ty.base()), Some(Kind::Enum)) || (dynamic && sch.kind(ty.base()) == Some(Kind::Scalar) && !vgql::sch::BUILTIN_SCALARS.contains(&ty.base()))
+        }
+        Fault::NothingForNonNull => dynamic && ty.is_nn(),
+    }
+}
+
+fn exec(fl: &Flavour, sch: &Sch, world: &World, text: &str, td: &TypedDoc) -> Result<async_graphql::Response, String> {
+    let rt = Rt::new(world.clone());
+    match fl {
+        Flavour::Static(z) => Ok(vcore::det::block_on(z.execute(request(text, &td.vars, td.op_name.as_deref()).data(rt)))),
+        Flavour::Dynamic => {
+            let schema = build_dynamic(sch, &rt, |b| b).map_err(|e| format!("HARNESS: schema does not build: {}", e))?;
+            Ok(vcore::det::block_on(schema.execute(request(text, &td.vars, td.op_name.as_deref()))))
+        }
+    }
+}
+
+fn fault_class(base: &RefOut, with: &RefOut) -> &'static str {
+    // how far did the (first) error propagate?
+    match with.errors.first() {
+        None => "fault-not-reached",
+        Some(e) => {
+            if e.nulled.is_empty() && (with.data == Some(serde_json::Value::Null)) {
+                "to-root"
+            } else if e.nulled == e.path {
+                "at-field"
+            } else if matches!(e.nulled.last(), Some(vgql::refexec::Seg::Idx(_))) {
+                "to-list-item"
+            } else {
+                let _ = base;
+                "to-ancestor"
+            }
+        }
+    }
+}
+
+/// One tree (schema, world, document): every single fault position x kind, then fault pairs.
+fn tree_case(s: &mut dyn Src, fl: &Flavour, fixed_sch: Option<&Sch>, tcfg: &TypedCfg, counters: &std::cell::RefCell<(u64, u64, BTreeSet<String>)>, pair_budget: usize) -> Case {
+    let gen;
+    let sch: &Sch = match fixed_sch {
+        Some(s) => s,
+        None => {
+            gen = gen_sch(s, &SchCfg::default());
+            &gen
+        }
+    };
+    let dynamic = matches!(fl, Flavour::Dynamic);
+    let world = gen_world(sch, s, &WorldCfg { null_composite_items: !dynamic, ..WorldCfg::default() });
+    let mut td = gen_typed_doc(sch, s, tcfg);
+    let text = print_plain(&mut td.doc);
+    let head = format!("{}world: {}\nquery: {}\nvariables: {}", if fixed_sch.is_none() { format!("schema: {}\n", show_sch(sch)) } else { String::new() }, world.show(), text, vars_json(&td.vars));
+    let base = match execute(sch, &td.doc, td.op_name.as_deref(), &td.vars, &world, Quirks::default()) {
+        Ok(b) => b,
+        Err(e) => return Case::fail(head, format!("HARNESS: reference executor rejects a generated request: {:?}", e)),
+    };
+    // distinct (node, field) positions touched by the fault-free execution
+    let mut positions: Vec<(usize, String, vgql::ast::Ty)> = vec![];
+    for t in &base.touches {
+        if !positions.iter().any(|(n, f, _)| *n == t.node && *f == t.field) {
+            positions.push((t.node, t.field.clone(), t.ty.clone()));
+        }
+    }
+    let kinds = [Fault::ResolverError, Fault::InvalidValue, Fault::NothingForNonNull];
+    let mut singles: Vec<(usize, String, Fault)> = vec![];
+    for (n, f, ty) in &positions {
+        for k in kinds {
+            if applicable(sch, dynamic, ty, k) {
+                singles.push((*n, f.clone(), k));
+            }
+        }
+    }
+    let mut classes: BTreeSet<String> = BTreeSet::new();
+    let mut nontrivial = false;
+    let mut run_faults = |faults: &[(usize, String, Fault)]| -> Result<(), String> {
+        let mut w = world.clone();
+        for (n, f, k) in faults {
+            w.faults.insert((*n, f.clone()), *k);
+        }
+        let want = execute(sch, &td.doc, td.op_name.as_deref(), &td.vars, &w, Quirks::default()).map_err(|e| format!("HARNESS: reference executor: {:?}", e))?;
+        let resp = exec(fl, sch, &w, &text, &td)?;
+        let cls = fault_class(&base, &want);
+        classes.insert(format!("{}{}", if faults.len() == 2 { "pair-" } else { "" }, cls));
+        if cls != "at-field" && cls != "fault-not-reached" {
+            nontrivial = true;
+        }
+        counters.borrow_mut().0 += 1;
+        compare(&want, &resp).map_err(|e| {
+            format!(
+                "faults {:?}: {}; reported errors: {:?}; expected errors: {:?}",
+                faults.iter().map(|(n, f, k)| format!("#{}.{}:{:?}", n, f, k)).collect::<Vec<_>>(),
+                e,
+                resp.errors.iter().map(|e| format!("{:?}@{:?}", e.path, e.locations)).collect::<Vec<_>>(),
+                want.errors.iter().map(|e| format!("{}@{}:{} nulled={}", show_path(&e.path), e.loc.line, e.loc.col, show_path(&e.nulled))).collect::<Vec<_>>()
+            )
+        })
+    };
+    for f in &singles {
+        if let Err(e) = run_faults(std::slice::from_ref(f)) {
+            return Case::fail(head, e);
+        }
+    }
+    // pairs: all for small trees, a generated sample otherwise
+    let mut pairs: Vec<(usize, usize)> = vec![];
+    if singles.len() <= 12 {
+        for i in 0..singles.len() {
+            for j in i + 1..singles.len() {
+                if (singles[i].0, &singles[i].1) != (singles[j].0, &singles[j].1) {
+                    pairs.push((i, j));
+                }
+            }
+        }
+    } else {
+        for _ in 0..pair_budget {
+            let i = s.choose(singles.len());
+            let j = s.choose(singles.len());
+            if i != j && (singles[i].0, &singles[i].1) != (singles[j].0, &singles[j].1) {
+                pairs.push((i.min(j), i.max(j)));
+            }
+        }
+    }
+    for (i, j) in pairs {
+        counters.borrow_mut().1 += 1;
+        if let Err(e) = run_faults(&[singles[i].clone(), singles[j].clone()]) {
+            return Case::fail(head, e);
+        }
+    }
+    let mut c = Case::pass(head).nontrivial(nontrivial);
+    for cl in classes {
+        counters.borrow_mut().2.insert(cl.clone());
+        c = c.class(cl);
+    }
+    c.class(if dynamic { "dynamic" } else { "static" })
+}
+
+pub fn run(ctx: &mut Ctx) {
+    ctx.rule = "fault enumeration: for each generated (schema, world, valid document) EVERY (node, field) position touched by the fault-free reference execution is failed once per \
+                applicable fault kind (resolver error; dynamic: value invalid for enum/custom scalar, nothing for a non-null type), plus all fault pairs for trees with <=12 positions \
+                (sampled pairs above); each faulted execution is compared with the reference executor (data exactly; errors by path+location, once). A case = one tree with all its \
+                fault runs; non-trivial = some fault propagates beyond its own field (to a list item, an ancestor or the root); distinct by rendered tree".into();
+    ctx.assume("guard rejections are not injected (no guarded field in Z); subscription events are C27's subject; where several errors race in a region nulled by propagation the C03 rule of DESIGN section 4 applies (at least one reported, none twice)");
+    let trees = ctx.tier.pick(2_000, 40_000);
+    let z = build_z(|b| b);
+    let zsch = z_sch(&z);
+    let mut cfg = crate::c02::typed_cfg(ctx, "C03");
+    cfg.ops = vec![OpKind::Query, OpKind::Query, OpKind::Mutation];
+    cfg.max_depth = 3;
+    // C04-F1 (open): every occurrence of a repeated response key is executed separately, so its errors are
+    // reported once per occurrence; repeated keys are C04's subject and excluded here by construction
+    if ctx.open("C04-F1") {
+        cfg.repeats = false;
+        ctx.excluded("C04-F1");
+    }
+    let counters = std::cell::RefCell::new((0u64, 0u64, BTreeSet::new()));
+    ctx.stream("static-Z", trees, 600, |s| tree_case(s, &Flavour::Static(&z), Some(&zsch), &cfg, &counters, 24));
+    ctx.stream("dynamic-Z-mirror", trees / 2, 600, |s| tree_case(s, &Flavour::Dynamic, Some(&zsch), &cfg, &counters, 24));
+    ctx.stream("dynamic-random", trees, 600, |s| tree_case(s, &Flavour::Dynamic, None, &cfg, &counters, 24));
+    let (runs, pairs, _) = counters.borrow().clone();
+    ctx.note("fault_executions", serde_json::json!(runs));
+    ctx.note("fault_pair_executions", serde_json::json!(pairs));
 }
